@@ -71,6 +71,16 @@ def main():
         from tools.manifest_extra import NOT_APPLICABLE  # optional overrides: id -> reason
     except Exception:
         NOT_APPLICABLE = {}
+    # claims written by the per-property notes (notes/CNN.manifest.json: category, text, note | not_applicable)
+    for p in props:
+        np_ = os.path.join(ROOT, "notes", "%s.manifest.json" % p)
+        if p not in CLAIMED and os.path.exists(np_):
+            d = json.load(open(np_))
+            if "not_applicable" in d:
+                NOT_APPLICABLE.setdefault(p, d["not_applicable"])
+            elif os.path.exists(os.path.join(ROOT, "specs", "%s.py" % p.lower())):
+                CLAIMED[p] = dict(category=d["category"], text=d["text"], note=d["note"],
+                                  design_ref="DESIGN.md section 5 %s, section 12; notes/%s.md" % (p, p))
     checks = []
     for p in props:
         if p in CLAIMED:
